@@ -190,6 +190,51 @@ class SV(object):
         raise Unsupported('float() of a symbolic value')
 
 
+class Inf(object):
+    """+infinity / -infinity as they occur in default arguments and class constants (np.inf); only comparisons and the
+    few arithmetic forms the modelled code uses are defined"""
+    def __init__(self, sign=1):
+        self.sign = sign
+
+    def __repr__(self):
+        return 'inf' if self.sign > 0 else '-inf'
+
+    def __neg__(self):
+        return Inf(-self.sign)
+
+    def _cmp(self, op, o, rev=False):
+        if isinstance(o, Inf):
+            a, b = (o.sign, self.sign) if rev else (self.sign, o.sign)
+            return {'<': a < b, '<=': a <= b, '>': a > b, '>=': a >= b, '==': a == b, '!=': a != b}[op]
+        big = self.sign > 0
+        if rev:     # o op self
+            return {'<': big, '<=': big, '>': not big, '>=': not big, '==': False, '!=': True}[op]
+        return {'<': not big, '<=': not big, '>': big, '>=': big, '==': False, '!=': True}[op]
+
+    def __lt__(self, o): return self._cmp('<', o)
+    def __le__(self, o): return self._cmp('<=', o)
+    def __gt__(self, o): return self._cmp('>', o)
+    def __ge__(self, o): return self._cmp('>=', o)
+    def __eq__(self, o): return self._cmp('==', o)
+    def __ne__(self, o): return self._cmp('!=', o)
+    __hash__ = object.__hash__
+
+    def __rtruediv__(self, o):
+        return 0            # finite / inf
+
+    def __mul__(self, o):
+        o = _generic(o)
+        if _isnum(o) and _c(o) != 0:
+            return Inf(self.sign if _c(o) > 0 else -self.sign)
+        raise Unsupported('inf * symbolic')
+    __rmul__ = __mul__
+
+    def __add__(self, o): return self
+    __radd__ = __add__
+    def __sub__(self, o): return self
+    def __rsub__(self, o): return Inf(-self.sign)
+
+
 def _isnum(x):
     return isinstance(x, (int, Fraction, bool)) or isinstance(x, float)
 
@@ -249,6 +294,8 @@ def mul(a, b):
 
 def div(a, b):
     a, b = _generic(a), _generic(b)
+    if isinstance(b, Inf) and not isinstance(a, Inf):
+        return 0
     if _isnum(a) and _isnum(b):
         if _c(b) == 0:
             raise PyRaise('ZeroDivisionError', 'division by zero')
@@ -431,10 +478,14 @@ REPLAY_TOL = None       # set by kvc.replay: relative tolerance for comparisons 
 
 def cmp(op, a, b):
     a, b = _generic(a), _generic(b)
+    if isinstance(a, Inf):
+        return a._cmp(op, b)
+    if isinstance(b, Inf):
+        return b._cmp(op, a, rev=True)
     if _isnum(a) and _isnum(b):
         a, b = _c(a), _c(b)
         if REPLAY_TOL is not None and not (isinstance(a, int) and isinstance(b, int)):
-            tol = REPLAY_TOL * max(1, abs(a), abs(b))
+            tol = REPLAY_TOL * max(abs(a), abs(b)) + Fraction(1, 10 ** 200)      # relative: physical quantities span 1e-30 .. 1e30
             return {'<': a < b + tol, '<=': a <= b + tol, '>': a > b - tol, '>=': a >= b - tol,
                     '==': abs(a - b) <= tol, '!=': abs(a - b) > tol}[op]
         return {'<': a < b, '<=': a <= b, '>': a > b, '>=': a >= b, '==': a == b, '!=': a != b}[op]
